@@ -36,6 +36,7 @@ def c09(ctx, res):
     path_trace(ctx, res)
     cfg = "MC_C09_quick.cfg" if ctx.quick else "MC_C09_thorough.cfg"
     ctx.gen_replay(res, "leaf", "MC_C09.tla", cfg)
+    ctx.gen_replay(res, "leaf", "MC_Wide.tla", "MC_Wide_leaf.cfg")     # lists of 33 / 257 / 300 members: subscripts beyond one byte, every path resolved again
     # sessions: every history of LeafUseDotNotation (set / clear / toggle) and SetAttrPrefix calls interleaved with LeafNodes
     ctx.gen_replay(res, "mxj", "Mxj.tla", "Mxj_leaf.cfg" if ctx.quick else "Mxj_leaf_thorough.cfg", procs=8)
     res.assumptions += ["leaf collections are compared as bags", "resolution clause applied to Maps without empty keys and without directly nested lists, [N] notation"]
@@ -112,6 +113,11 @@ def c18(ctx, res):
     # integrated specification: random sessions of 24 steps over ALL setters and operations (decode, cast decode, sequence decode, encode, leaf nodes, key search)
     ctx.gen_replay(res, "mxj", "Mxj.tla", "Mxj_walk.cfg", workers=8, procs=8,
                    extra=["-simulate", "num=%d" % (6 if ctx.quick else 150), "-depth", "25", "-seed", str(ctx.seed)])
+    # XMPP streams: every history of HandleXMPPStreamTag (set / clear / toggle), key folding, white-space and attribute-prefix setters with the four
+    # decoder entry points on a <stream:stream> document in between (the element is returned at its start tag only while the register is on)
+    ctx.gen_replay(res, "mxj", "Mxj.tla", "Mxj_xmpp_quick.cfg" if ctx.quick else "Mxj_xmpp.cfg", procs=8)
+    # calls of the legacy wrappers in between: they neither depend on more than the core does nor change a register
+    ctx.gen_replay(res, "mxj", "Mxj.tla", "Mxj_legacy.cfg", procs=8)
     res.exhaustive = False
     res.assumptions += ["key prefixes are single punctuation characters, attribute prefixes contain no upper-case letters (property's quantifier)",
                         "behavioural probes: one fixed input set per operation class; the probe of a class is checked to be influenced by every register the specification lists for it"]
@@ -153,6 +159,9 @@ def c03(ctx, res):
     ctx.gen_replay(res, "encv", "MC_C03.tla", "MC_C03_pfx_quick.cfg" if ctx.quick else "MC_C03_pfx_thorough.cfg", procs=8)
     # ... and with NO attribute prefix (SetAttrPrefix("") / PrependAttrWithHyphen(false)): no key is an attribute
     ctx.gen_replay(res, "encv", "MC_C03.tla", "MC_C03_nopfx_quick.cfg" if ctx.quick else "MC_C03_nopfx_thorough.cfg", procs=8)
+    # Go-typed values a caller may put into a Map (int, int32, int64, float32, json.Number, []byte, []string, []map[string]interface{}):
+    # the bytes are those of the untyped value (MC_C03t!TypeUp)
+    ctx.gen_replay(res, "encv", "MC_C03t.tla", "MC_C03t_quick.cfg" if ctx.quick else "MC_C03t_thorough.cfg", procs=8)
     # code -> spec: recorded sessions, Map.Xml() of random JSON-shaped values (depth <= 4) under the session's prefixes / escaping / empty-element syntax
     xml_trace(ctx, res, "encv")
     res.assumptions += ["scalars are rendered by Go's %v; number formatting is trusted (tokens are canonical: 1.5, true)",
@@ -245,6 +254,9 @@ def c19(ctx, res):
 def c20(ctx, res):
     ctx.gen_replay(res, "legacy", "MC_C20.tla", "MC_C20_quick.cfg" if ctx.quick else "MC_C20_thorough.cfg", procs=16)
     ctx.gen_replay(res, "legacy", "MC_C20.tla", "MC_C20_deep.cfg", procs=4)     # chains 3 to 10 levels deep with siblings after every hit
+    # sessions: the wrappers are the core under the registers in force and leave the registers alone (x2j-wrapper DocToMap with its own
+    # CastNanInf flag on; the four j2x JSON -> XML entry points on a non-canonical numeral under JsonUseNumber histories)
+    ctx.gen_replay(res, "mxj", "Mxj.tla", "Mxj_legacy.cfg", procs=8)
     res.assumptions += ["j2x/x2j wrappers add no state: the specification lists each with its documented composition (MxjLegacy!Bindings); the harness checks the list against the exported identifiers parsed from the packages' sources and calls every bound function",
                         "the XML side is exercised with the Map's own XML encoding when it is a single readable document; JSON side: string scalars (identity round trip)",
                         "ToJson / ToJsonIndent / XmlBufferToJson use json.Marshal (HTML-safe escapes): compared as JSON values"]
